@@ -21,10 +21,10 @@ Lemma table_protects : forallb rule_protects protected_names = true.
 Proof. vm_compute. reflexivity. Qed.
 
 Lemma protected_rule : forall n, In n protected_names ->
-  q_modifiable n = Some false /\ q_deletable n = Some false.
+  q_modifiable n = false /\ q_deletable n = false.
 Proof.
   intros n H. pose proof table_protects as T. rewrite forallb_forall in T. specialize (T n H).
-  unfold rule_protects in T. unfold q_modifiable, q_deletable.
+  unfold rule_protects in T. unfold q_modifiable, q_deletable, q_rule.
   destruct (find_rule n); [|discriminate]. simpl.
   apply andb_true_iff in T. destruct T as [A B]. apply negb_true_iff in A. apply negb_true_iff in B.
   now rewrite A, B.
@@ -65,10 +65,10 @@ Ltac inv H := inversion H; subst; clear H.
 
 (* the single-valued setter is only ever entered for a name the table marks modifiable; the table marks none of the
    protected names modifiable, so the only column it can write is [sensitive] *)
-Lemma set_single_safe : forall o n v e, q_modifiable n = Some true -> set_single o n v = Ok e -> safe_effect e.
+Lemma set_single_safe : forall o n v e, negb (q_modifiable n) = false -> set_single o n v = Ok e -> safe_effect e.
 Proof.
-  intros o n v e M H. unfold set_single in H.
-  destruct (q_multivalued n) as [[|]|]; try discriminate.
+  intros o n v e M H. apply negb_false_iff in M. unfold set_single in H.
+  destruct (q_multivalued n); try discriminate.
   destruct (sfield_of_name n) eqn:S.
   - apply sfield_of_name_inv in S. destruct S as [[-> ->]|[NS P]].
     + destruct v; try discriminate. destruct (o_sensitive o); [destruct b; [|discriminate]|]; inv H; simpl; auto.
